@@ -28,14 +28,15 @@ check had to be strengthened):
 
 * `Cxx-revert-<commit>`: the reversal of every `fix:` commit (the defect of the pinned tree comes
   back). Each must be caught by the property's quick check.
-* `Cxx-agent`, `Cxx-agent2`, `Cxx-agent3`: three changes per property, each written by a fresh
+* `Cxx-agent`, `Cxx-agent2`, `Cxx-agent3`, `Cxx-agent4`: four changes per property, each written by a fresh
   sub-agent that was given only the text of the property and a scratch worktree of `/repo`
   (nothing from `/verif`; the briefs are kept as `seeded/BRIEF_batch*_example_C08.txt`), asked for
   a plausible refactoring that breaks the property, still compiles, passes the 102 existing tests
   and needs something specific to manifest, with a demonstration test. The second and third batch
-  were additionally told which changes already existed, so as to hit a different function and
-  clause (third batch: preferably a multi-step sequence, a boundary value, an unusual-but-legal
-  representation or two cooperating sites). Each change was confirmed in a scratch worktree before
+  and later batches were additionally told which changes already existed, so as to hit a different
+  function and clause (third and fourth batch: preferably a multi-step sequence, a boundary value,
+  an unusual-but-legal representation or two cooperating sites; fourth batch: with a note on which
+  representations the schema allows). Each change was confirmed in a scratch worktree before
   it was kept (`tools/confirm_seed.sh`: the 102 tests pass with the change, the demonstration
   fails with it and passes without it); the worktrees were removed. One candidate was **rejected**
   (`seeded/rejected/C13-agent3`): it only manifests for a Quadratic message with a duplicated
@@ -44,7 +45,8 @@ check had to be strengthened):
 
 `python3 tools/seeded.py seeded/<name>` applies the patch to `/repo`, runs the property's quick
 check, restores `/repo` and records the outcome. First-run outcomes: all 17 reversals DETECTED;
-51 of the 60 agent changes DETECTED (batch 1: 19/20, batch 2: 17/20, batch 3: 15/20). The nine
+63 of the 80 agent changes DETECTED (batch 1: 19/20, batch 2: 17/20, batch 3: 15/20, batch 4:
+12/20 -- the later batches were steered away from everything already covered). The seventeen
 misses and what was done (each is DETECTED now):
 
 * `C02-agent` (Quadratic+Quadratic keyed by the unordered pair): the quick tier ran only two
@@ -66,6 +68,23 @@ misses and what was done (each is DETECTED now):
 * `C14-agent3` (evaluate_samples short-circuits removed constraints for all samples): histories
   were observed through `evaluate` only -> `evaluate_samples` on several states is observed after
   every step and judged per sample against the model (`judge_sample_flags`).
+
+* `C03-agent4` (early return of `Function::partial_evaluate` for "degree 0"): no Quadratic with an
+  explicit zero entry had its linear variables fixed first -> stream `steps/zero-entry`.
+* `C06-agent4` (`<=` instead of `<` in the sampled feasibility test): no sample sat exactly on the
+  tolerance -> stream `tolerance` (1e-6 and its binary64 neighbours, both signs, both kinds).
+* `C09-agent4` (weights allocated from the sorted id set, zipped with storage order): generated
+  constraint lists were always ascending -> `tools/gen/inst.py` shuffles both lists half of the time.
+* `C12-agent4` (fresh-id base computed before the lookup): no instance without variables ->
+  error case `err/empty-instance`.
+* `C13-agent4` (`get_bounds` gives `[0,0]` to an integer variable without bound): integer variables
+  always had a bound -> 12% are unbounded in the conversion cases (range-limit rejection).
+* `C14-agent4` (removed iff the reason is non-empty): reasons were never empty -> empty reason
+  strings in 30% of the relax operations and 20% of generated removed constraints.
+* `C16-agent4` (`as i64` saturation in `as_integer_bound`): no endpoint beyond 2^63 -> stream
+  `boundary/as_integer_bound_huge`.
+* `C18-agent4` (`get_constant()` in `write_rhs`): the Polynomial rendering of a linear row had at
+  most one constant monomial -> it spreads the constant over several 40% of the time.
 
 Two streams were added *before* the first run of the corresponding seed, after reading its
 description, because the generator could not have produced the needed input: two- and three-step
